@@ -231,13 +231,39 @@ def wireJudge (f : List String) (out : String) : String :=
   | some (sites, h, _, pm), some o => Casket.VHostWireSpec.verdict sites h pm o
   | _, _ => "bad:unparsable:" ++ out
 
+/-
+  c01.seq   keys  queries   (several lookups through ONE trie and each on a fresh trie)
+     out   = seq=<a;a;...>|fresh=<a;a;...>     a = <index>:<prefix hex> | -
+-/
+def seqModel : List String → String
+  | [ks, qs] =>
+    match (if ks = "" then some [] else (ks.splitOn ",").mapM bytes), (qs.splitOn ",").mapM bytes with
+    | some keys, some qs =>
+      let t := (keys.zipIdx.foldl (fun (t : Trie) (ki : Bytes × Nat) => t.insert ki.1 ki.2)
+                 { fallbacks := defaultFallbacks, root := [] })
+      let ans := ";".intercalate ((lookups t qs).map fun
+        | none => "-"
+        | some (i, p) => s!"{i}:{hexB p}")
+      s!"seq={ans}|fresh={ans}"
+    | _, _ => "bad-case"
+  | _ => "bad-case"
+
+/-- the property clause judged on the implementation's own two answers: the site that answers a
+request does not depend on the requests before it (`seqVerdict`, proved of the model by
+C01_lookups_history_independent) -/
+def seqJudge (_ : List String) (out : String) : String :=
+  match out.splitOn "|" with
+  | [a, b] => seqVerdict ((a.drop 4).toString.splitOn ";") ((b.drop 6).toString.splitOn ";")
+  | _ => "bad:malformed:" ++ (out.take 60).toString
+
 def streams : List Driver.Stream := [
   { name := "c01.wire", model := wireModel, judge := wireJudge },
   { name := "c01.auto", model := autoModel, judge := autoJudge },
   { name := "c01.stack", model := stackModel, judge := stackJudge },
   { name := "c01.route", model := routeModel, judge := routeJudge },
   { name := "c01.hostport", model := hostportModel, judge := fun _ _ => "ok" },
-  { name := "c01.match", model := matchModel, judge := fun _ _ => "ok" }
+  { name := "c01.match", model := matchModel, judge := fun _ _ => "ok" },
+  { name := "c01.seq", model := seqModel, judge := seqJudge }
 ]
 
 end Driver.C01
